@@ -21,5 +21,5 @@ Extraction "model_gen.ml"
   C12.Model.open_with C12.Model.fstep C12.Model.close
   C10.Model.render
   C18.Model.dstep C18.Model.daccept
-  C14.Model.check_sheet C14.Model.lookup_guard
+  C14.Model.check_sheet C14.Model.lookup_guard C14.Model.check_row
   C03.Merge.merge_step C03.Merge.norm.
